@@ -1111,6 +1111,12 @@ func TestCoreScripts(t *testing.T) {
 					}
 					a = Act{Name: "Deliver", E: w.Net[0].dst, A: 1}
 				}
+				if a.Name == "DropAny" { // the oldest datagram in flight is lost
+					if len(w.Net) == 0 {
+						continue
+					}
+					a = Act{Name: "Drop", E: w.Net[0].dst, A: 1}
+				}
 				if a.Name == "DropAll" { // every datagram in flight is lost
 					for len(w.Net) > 0 {
 						d := Act{Name: "Drop", E: w.Net[0].dst, A: 1}
